@@ -375,6 +375,13 @@ def discharge(ctx, s, scope=None):
             v = ca * cb if kind.endswith('Mul') else ca + cb if kind.endswith('Add') else ca - cb
             if 0 <= v < 2 ** 32:
                 return 'constant operands (%d, %d): the result %d fits' % (ca, cb, v)
+    if kind == 'assert:overflow:Add' and len(ops) == 2:
+        # len(x) + k: the length of a slice or vector is at most isize::MAX (of elements that occupy memory), so a small constant fits
+        for a_, b_ in ((ops[0], ops[1]), (ops[1], ops[0])):
+            a0, kb = _strip(a_), _const_int(_strip(b_))
+            if kb is not None and 0 <= kb < 2 ** 16 and a0.tag == 'call' and a0[1].split('::')[-1] == 'len' and len(a0[2]) == 1 and \
+                    ('slice' in a0[1] or 'Vec' in a0[1]):
+                return 'a slice or vector length (at most isize::MAX) plus the constant %d' % kb
     if kind in ('assert:overflow:Mul', 'assert:overflow:Add') and len(ops) == 2:
         # (j - 1) * B [+ i]   with j in 1..A, i in 0..B and checked_mul(A, B) known to succeed
         x, y = ops
